@@ -6,6 +6,9 @@ CHECKS = {
  "C01": dict(cat="exploration", tech="bounded-exhaustive enumeration of the real kernels (lane x boundary-alphabet x alias products, whole tiny fields) against division-based reference arithmetic",
    text="Every exported kernel of ring.SubRing/ring.Ring/ringqp.Ring, the scalar reductions, NTT (both ring types) and automorphisms are executed on every lane x boundary-alphabet combination, on whole tiny prime fields, on every monomial / two-term / dense-extreme polynomial and on every Galois element, for primes of every size class up to 61 bits, and compared with exact integer arithmetic and the documented output ranges.",
    note="Trusted: the reference arithmetic in /verif/ref (hardware division, schoolbook products); prime coverage is by size class, operand coverage on big primes by boundary alphabet (DESIGN §5, §9).", ref="§6 C01"),
+ "C10": dict(cat="model_checking", tech="explicit exploration of every interleaving of whole operations of 2-3 threads (original + copies) with a footprint-isolation oracle on reflective memory snapshots, plus exhaustive (constructor x configuration x operation) structural/behavioural comparison",
+   text="Every copy constructor in the catalogue (rlwe/bgv/ckks/rgsw evaluators, encoders, encryptors, decryptors, key sets, basis extender, ring level views, 13 multiparty protocols, deep copies of ciphertexts/keys) x every configuration of the original x with/without P x every operation: reflective structural comparison original vs copy, behavioural equality under the same seed, independence by snapshot diff; for copies documented as concurrently usable every op-granular interleaving of 2 (quick) / 3 threads or 2 ops (thorough) is executed with the oracle that no operation changes memory reachable from another thread's object and that results equal the solo runs.",
+   note="Reduction lemma (DESIGN §2 E3): no synchronisation in the library, so footprint isolation at operation granularity implies race freedom; writes restoring the old value are invisible to snapshot diffs; rlwe.Scale internals treated as immutable values; WithKey/WithPRNG copies (documented as sharing buffers) are excluded from the concurrency oracle.", ref="§6 C10"),
 }
 NOT_YET = {}
 def main():
